@@ -423,7 +423,9 @@ def roundtrip_check(ctx, wd, *, wire: str, convert, level: int, with_nd: bool, n
     if not top_level_missing:
         pairs = [p for p in pairs if p["v"]["c"] != "na"]
     if stride > 1:      # a seeded sub-sample of TLC's enumeration (quick tier of the more expensive verdicts)
-        pairs = pairs[rng.randrange(stride)::stride]
+        off = rng.randrange(stride)
+        rare = lambda t: t["k"] == "ndarray" or (t["k"] in ("tuple", "struct") and len(t["ts"]) > 8)  # noqa: E731  always kept
+        pairs = [p for i, p in enumerate(pairs) if i % stride == off or rare(p["t"])]
     if not pairs:
         raise RuntimeError("vacuous: TLC enumerated no <<type, value>> pair")
     cases = run_cases(H, pairs, convert, template)
@@ -465,7 +467,7 @@ def roundtrip_check(ctx, wd, *, wire: str, convert, level: int, with_nd: bool, n
             g["why"][why] = g["why"].get(why, 0) + 1
         for sig, g in sorted(groups.items()):
             r, ex = g["root"], g["example"]
-            ctx.violation(sig, {"cases": g["n"], "why": g["why"], "minimal_type": type_str(r["t"]), "minimal_value": r["v"],
+            ctx.violation(sig, {"cases": g["n"], "why": g["why"], "minimal_type": type_str(r["t"]), "minimal_type_tree": r["t"], "minimal_value": r["v"],
                                 "error": r["err"], "decoded": r["w"],
                                 **({"python_bytes": bytes(r["bytes"]).hex(), "engine_expects": bytes(g["want"]).hex()}
                                    if "bytes" in r else {}),
@@ -476,3 +478,21 @@ def roundtrip_check(ctx, wd, *, wire: str, convert, level: int, with_nd: bool, n
              "depth2_cases": verdict["nested"], "extra_types": len(extra), "bad_cases": len(bad),
              "with_missing": sum(1 for p in pairs if '"na"' in json.dumps(p["v"]))}
     return cases, verdict, stats
+
+
+def replay_pair(ctx, wd, rp, *, wire: str, convert, verdict_module="TypedValuesVerdict", template=None):
+    """--replay: run only the minimal <<type, value>> pair of a recorded violation through the real code and TLC"""
+    H = load()
+    d = rp.get("replay") or rp.get("detail") or {}
+    t, v = d["minimal_type_tree"], d["minimal_value"]
+    env = tlc_env(wd, level=0, with_nd=True, tag="_replay")
+    (wd / "extra.ndjson").write_text(json.dumps({"t": {"k": "int32"}}) + "\n")
+    cases = run_cases(H, [{"t": t, "v": v}], convert, template)
+    verdict = judge(wd, env, cases, verdict_module)
+    for b in verdict["bad"]:
+        if b["why"] in ("not-in-universe", "harness"):
+            raise RuntimeError(f"replay pair rejected by the specification: {b}")
+        ctx.violation(f"{wire}:{t['k']}:{feature(t, v)}", {"why": b["why"], "minimal_type": type_str(t), "minimal_type_tree": t, "minimal_value": v, "error": cases[0]["err"],
+                                                         "decoded": cases[0]["w"], "python_value": repr(mk_value(H, t, v))[:200]})
+    ctx.cov.update(evaluations=1, distinct_nontrivial=2, exhaustive=False, rule="replay of one recorded <<type, value>> pair, judged by TLC")
+    ctx.sample({"type": type_str(t), "value": v, "decoded": cases[0]["w"], "error": cases[0]["err"]})
